@@ -1,6 +1,7 @@
 package main
 
 import (
+	"hash"
 	"bytes"
 	"context"
 	"crypto"
@@ -202,7 +203,34 @@ func c03RefusedDone(x *runCtx, c c03Config) {
 	}
 }
 
+// c03FailingHmac: the device's HMAC is hardware-backed and its final step fails once during DI (the error is latched
+// and only visible through Err(), Sum returns nothing). DI must fail; if it reports success, the voucher the
+// manufacturer stored and the credential the device keeps have to agree like after any other DI.
+func c03FailingHmac(x *runCtx, c c03Config) {
+	ctx := context.Background()
+	st := lab.NewMemState()
+	w := lab.NewWorld(st)
+	fail := true
+	w.WrapHmac = func(h hash.Hash) hash.Hash { return &lab.FailingHmac{Hash: h, FailNext: &fail} }
+	d, err := w.NewDevice(ctx, c.k, c.enc, "dev1", nil)
+	x.r.Case(c.String()+" DI with an HMAC whose final step fails", true, "DI-failing-hmac")
+	if err != nil {
+		return
+	}
+	ov, verr := st.Voucher(ctx, d.Cred.GUID)
+	if verr != nil {
+		x.r.Violate(rep.Violation{Kind: "oracle", Check: "C03.agreement", Signature: "C03.di-failing-hmac:credential-without-voucher",
+			Input: c.String() + " DI, device HMAC fails once in its final step", Impl: verr.Error(), PropertyFails: true})
+		return
+	}
+	if aerr := agreement(ov, d.Cred, d.Secret); aerr != nil {
+		x.r.Violate(rep.Violation{Kind: "oracle", Check: "C03.agreement", Signature: "C03.di-failing-hmac:di-succeeded-with-a-voucher-that-does-not-verify",
+			Input: c.String() + " DI, device HMAC fails once in its final step (Err() set, Sum returns its input)", Impl: aerr.Error(), PropertyFails: true})
+	}
+}
+
 func c03History(x *runCtx, r *rand.Rand, c c03Config) {
+	c03FailingHmac(x, c)
 	ctx := context.Background()
 	st := lab.NewMemState()
 	w := lab.NewWorld(st)
@@ -245,6 +273,11 @@ func c03History(x *runCtx, r *rand.Rand, c c03Config) {
 		// every owner hands out rendezvous instructions of its own: the replacement differs from the current ones
 		w.RvInfo = [][]protocol.RvInstruction{{{Variable: protocol.RVDns, Value: cborBytes(fmt.Sprintf("rv%d.lab", round))},
 			{Variable: protocol.RVDevPort, Value: cborBytes(uint16(9000 + 10*round + r.IntN(10)))}}}
+		if round == 1 && r.IntN(2) == 0 {
+			// an owner that hands out no rendezvous instructions at all (the device held some before): what it sends in
+			// message 65 — nothing — is what both sides keep
+			w.RvInfo = [][]protocol.RvInstruction{}
+		}
 		oldGUID := d.Cred.GUID
 		before, _ := st.VoucherBytes(oldGUID)
 		cur, _ := st.Voucher(ctx, oldGUID)
